@@ -355,7 +355,7 @@ Theorem sweep_op3_plane_wave tt ttsgn slow dz dx dy i j k sgnvz sgnvx sgnvy sgnt
   fst (sweep tt ttsgn slow (dargs_of dz dx dy) i j k sgnvz sgnvx sgnvy sgntz sgntx sgnty nz nx ny grad)
   = set tt [i; j; k] (pymin4 (get 0 tt [i; j; k]) t1 t2 (T0 + s * (a * dz + b * dx + c * dy))).
 Proof.
-  unfold dargs_of. intros t1 t2 Hdz Hdx Hdy Hs Ha Hb Hc Hn E0 Eev Een Env Ev Ee En Es Hmax.
+  intros t1 t2 Hdz Hdx Hdy Hs Ha Hb Hc Hn E0 Eev Een Env Ev Ee En Es Hmax. unfold dargs_of.
   rewrite sweep_uses_op3; fold t1 t2; rewrite ?E0, ?Eev, ?Een, ?Env, ?Ev, ?Ee, ?En, ?Es.
   - rewrite op3_exact_on_plane_wave by assumption. reflexivity.
   - exact Hmax.
@@ -372,3 +372,58 @@ Proof. apply op3_exact_on_plane_wave; lra. Qed.
 Example t2d_zx_plane_wave_ex :
   t2d_zx (0 + 2 * (4/5) * 1) (0 + 2 * (3/5) * 1) 0 2 1 1 (1 / 1 / 1) (1 / 1 / 1) = 0 + 2 * (3/5 * 1 + 4/5 * 1).
 Proof. apply t2d_zx_plane_wave; lra. Qed.
+
+(* ---- satisfiability of the hypotheses of sweep_op3_plane_wave: a 2x2x2 grid, one cell of slowness 3, unit spacing,
+        direction (2/3, 1/3, 2/3); node (1,1,1) holds Big ---- *)
+Lemma pymin2_gt x p q : x < p -> x < q -> x < pymin2 p q.
+Proof. intros. unfold pymin2. destruct (nltb q p); assumption. Qed.
+Lemma pymin3_gt x p q r : x < p -> x < q -> x < r -> x < pymin3 p q r.
+Proof. intros. unfold pymin3. repeat apply pymin2_gt; assumption. Qed.
+Lemma pymax3_lt x p q r : p < x -> q < x -> r < x -> pymax3 p q r < x.
+Proof. intros. unfold pymax3, pymax2. repeat destruct (nltb _ _); assumption. Qed.
+Lemma pymin2_same (p : R) : pymin2 p p = p.
+Proof. unfold pymin2. destruct (nltb p p); reflexivity. Qed.
+Lemma sqrt_gt (x y : R) : 0 <= x -> x * x < y -> x < sqrt y.
+Proof. intros Hx H. rewrite <- (sqrt_square x Hx). apply sqrt_lt_1_alt. nra. Qed.
+
+Definition ex_tt : arr R := mkarr [2%Z; 2%Z; 2%Z] [0; 2; 1; 3; 2; 4; 3; 100000].
+Definition ex_slow : arr R := mkarr [1%Z; 1%Z; 1%Z] [3].
+Definition ex_sgn : arr Z := full [2%Z; 2%Z; 2%Z; 3%Z] 0%Z.
+
+Example sweep_op3_plane_wave_ex :
+  fst (sweep ex_tt ex_sgn ex_slow (dargs_of 1 1 1) 1 1 1 1 1 1 1 1 1 2 2 2 false)
+  = set ex_tt [1%Z; 1%Z; 1%Z]
+      (pymin4 100000 (t1d ex_tt ex_slow 1 1 1 1 1 1 1 1 1 1 1 1 2 2 2)
+              (sweep_t2d ex_tt ex_slow 1 1 1 (1 / 1 / 1) (1 / 1 / 1) (1 / 1 / 1) 1 1 1 1 1 1 1 1 1 2 2 2)
+              (0 + 3 * (2/3 * 1 + 1/3 * 1 + 2/3 * 1))).
+Proof.
+  apply (sweep_op3_plane_wave ex_tt ex_sgn ex_slow 1 1 1 1 1 1 1 1 1 1 1 1 2 2 2 false 0 3 (2/3) (1/3) (2/3));
+    try lra; try reflexivity.
+  - change (2 = 0 + 3 * (2 / 3) * 1). lra.
+  - change (2 = 0 + 3 * (2 / 3) * 1). lra.
+  - change (1 = 0 + 3 * (1 / 3) * 1). lra.
+  - change (3 = 0 + 3 * (1 / 3 * 1 + 2 / 3 * 1)). lra.
+  - change (4 = 0 + 3 * (2 / 3 * 1 + 2 / 3 * 1)). lra.
+  - change (3 = 0 + 3 * (2 / 3 * 1 + 1 / 3 * 1)). lra.
+  - assert (P4 : pymin4 3 3 3 3 = 3) by (unfold pymin4, pymin3; rewrite !pymin2_same; reflexivity).
+    assert (Ez : edge_s_z ex_slow 1 1 1 1 2 2 = 3) by exact P4.
+    assert (Ex : edge_s_x ex_slow 1 1 1 1 2 2 = 3) by exact P4.
+    assert (Ey : edge_s_y ex_slow 1 1 1 1 2 2 = 3) by exact P4.
+    assert (Fzx : face_s_zx ex_slow 1 1 1 1 1 2 = 3) by exact (pymin2_same 3).
+    assert (Fzy : face_s_zy ex_slow 1 1 1 1 1 2 = 3) by exact (pymin2_same 3).
+    assert (Fxy : face_s_xy ex_slow 1 1 1 1 1 2 = 3) by exact (pymin2_same 3).
+    assert (Ev : nb_v ex_tt 1 1 1 1 = 3) by reflexivity.
+    assert (Ee : nb_e ex_tt 1 1 1 1 = 4) by reflexivity.
+    assert (En : nb_n ex_tt 1 1 1 1 = 3) by reflexivity.
+    assert (Eev : nb_ev ex_tt 1 1 1 1 1 = 2) by reflexivity.
+    assert (Een : nb_en ex_tt 1 1 1 1 1 = 2) by reflexivity.
+    assert (Env : nb_nv ex_tt 1 1 1 1 1 = 1) by reflexivity.
+    unfold t1d, sweep_t2d. cbv zeta. rewrite Ez, Ex, Ey, Fzx, Fzy, Fxy, Ev, Ee, En, Eev, Een, Env.
+    apply pymax3_lt; (apply pymin2_gt; [apply pymin3_gt | apply pymin3_gt]); try lra.
+    all: unfold t2d_zx, t2d_zy, t2d_xy;
+         repeat (rewrite (proj2 (Rltb_true _ _)) by lra); cbn [andb];
+         unfold OperatorsR.four_point, op2; cbv zeta;
+         match goal with |- ?x < (?p + sqrt ?r) / ?q =>
+           assert (Hq : 5 < sqrt r) by (apply sqrt_gt; lra);
+           replace q with 2 by lra; set (sr := sqrt r) in *; lra end.
+Qed.
